@@ -1,5 +1,55 @@
-/- C16 — theorems under construction. -/
-import BEI.Model.App
+/-
+  C16 — While the UI is interacted with, mouse input is masked and nothing else is.
+  `RawInput.uiActive` is "some `Interaction` component is not `None`" (that `bevy_ui` sets these components correctly is
+  outside the model: the harness sets them directly — partly partial).
+-/
+import BEI.Model.Reader
 namespace BEI.Props.C16
-theorem placeholder_true : True := trivial
+open BEI
+
+/-- the reader at the start of a frame (`update_state` has run) -/
+def start (raw : RawInput) (dev : Device) : Reader := ({ raw := raw, device := dev } : Reader).updateState
+
+/-- the flag is recomputed from scratch on every frame: it is exactly "some element is hovered or pressed now" -/
+theorem flag_recomputed (r : Reader) : r.updateState.consumed.uiWantsMouse = r.raw.uiActive := rfl
+
+theorem flag_forgets_history (r : Reader) (c : Consumed) :
+    ({ r with consumed := c } : Reader).updateState = r.updateState := rfl
+
+/-- (1) in a frame with an interacted UI element every mouse-sourced input — buttons, motion, wheel, with or without
+    modifier keys — reads as inactive, for every context (any gamepad selection) -/
+theorem ui_masks_mouse (raw : RawInput) (dev : Device) (h : raw.uiActive = true) (b : Nat) (m : ModKeys) :
+    (start raw dev).value (.mbtn b m) = .bool false
+    ∧ (start raw dev).value (.motion m) = .a2 0 0
+    ∧ (start raw dev).value (.wheel m) = .a2 0 0 := by
+  simp [start, Reader.updateState, Reader.value, h]
+
+/-- (2) keyboard and gamepad inputs read exactly as they would without the UI -/
+theorem ui_keeps_rest (raw : RawInput) (dev : Device) (k : Nat) (m : ModKeys) (b x : Nat) :
+    (start raw dev).value (.key k m) = (start { raw with uiActive := false } dev).value (.key k m)
+    ∧ (start raw dev).value (.padBtn b) = (start { raw with uiActive := false } dev).value (.padBtn b)
+    ∧ (start raw dev).value (.padAxis x) = (start { raw with uiActive := false } dev).value (.padAxis x) := by
+  simp [start, Reader.updateState, Reader.value, Reader.modKeysPressed, Reader.modsDown, Reader.findPad]
+
+/-- (3) in a frame with no interacted element nothing is masked: mouse inputs read their physical state -/
+theorem no_ui_no_mask (raw : RawInput) (dev : Device) (h : raw.uiActive = false) (b : Nat) (m : ModKeys) :
+    (start raw dev).value (.mbtn b m) = .bool (raw.mouseButtons.contains b && (start raw dev).modsDown m)
+    ∧ (start raw dev).value (.motion m) = (if (start raw dev).modsDown m then .a2 raw.motion.1 raw.motion.2 else .a2 0 0)
+    ∧ (start raw dev).value (.wheel m) = (if (start raw dev).modsDown m then .a2 raw.wheel.1 raw.wheel.2 else .a2 0 0) := by
+  have hi : ∀ m : ModKeys, ({} : ModKeys).intersects m = false := by intro m; simp [ModKeys.intersects]
+  simp only [start, Reader.updateState, Reader.value, Reader.modKeysPressed, h, hi]
+  refine ⟨by simp, ?_, ?_⟩ <;>
+  · generalize (Reader.modsDown _ m) = bb
+    cases bb <;> simp
+
+/-- the mask does not survive consumption bookkeeping either way: consuming an input never changes the UI flag -/
+theorem consume_keeps_flag (r : Reader) (i : Input) : (r.consume i).consumed.uiWantsMouse = r.consumed.uiWantsMouse := by
+  cases i <;> rfl
+
+/-- non-vacuity: hovered UI, left button and Ctrl+key pressed: the button is masked, the key is not -/
+example :
+    let raw : RawInput := { keys := [0, 10], mouseButtons := [0], uiActive := true }
+    (start raw .any).value (.mbtn 0 {}) = .bool false ∧ (start raw .any).value (.key 0 { control := true }) = .bool true := by
+  decide
+
 end BEI.Props.C16
